@@ -688,7 +688,11 @@ fn collect_changes(
                     continue;
                 }
 
-                let new_entity = marker_added || visibility == Visibility::Gained;
+                // An entity without a mutation tick hasn't been sent to this client yet.
+                // This happens when the client connects after the entity started replicating.
+                let new_entity = marker_added
+                    || visibility == Visibility::Gained
+                    || ticks.mutation_tick(entity.id()).is_none();
                 if new_entity
                     || updates.changed_entity_added()
                     || removal_buffer.contains_key(&entity.id())
